@@ -8,6 +8,9 @@ from ..core import FUNC, call_attr, calls_in, const, dotted, is_const, kwarg, no
 from .c09 import waiter_rule, _stored_in_cancelled_table
 
 EXPLANATION = [
+    'C16.sink-wrappers: every class that installs itself as the packet sink of a transport source and forwards packets to a sink of its own also has on_transport_lost and passes it on (BaseSource only notifies sinks that have the method).',
+    'C16.exception-payloads: `future.set_exception(x)` is never given a status / number, and every emit of an event that has a bound `set_exception` registered directly as listener passes an exception object built in that function.',
+    'C16.iter-mutation: no loop over a live dict view (`.values()` / `.items()` / `.keys()` of an attribute table) has a body that, through the methods it calls (resolved by name, three levels, local aliases of the table followed), inserts into or removes from the same table; iterating a copy or a sub-table detached with pop() first is accepted.',
     'C16.listeners: the long-lived wiring of the L2CAP channel manager and of the device to their host uses on(), never once(): teardown handlers stay subscribed for every connection.',
     'C16.pending-slots: a manager-wide pending-request slot that a coroutine of ChannelManager fills with a future is set back to None on every exit of that coroutine after the store, the cancellation of its await (disconnection) included.',
     'C16.late-binding: no closure that is created inside a loop and kept (a sink, an event listener, a callback) reads the loop\'s variables freely; values are bound per iteration (default argument or functools.partial), so each bearer\'s callback serves its own bearer.',
